@@ -332,6 +332,22 @@ Definition match_arr (rec : rec_t) (bs : bindings) (xs : list json) (f : json)
       end
   end.
 
+(** a variable that is already bound: its value is matched as a pattern
+    against the message part - except that a bound value which is itself a
+    variable name is data (it was taken from a message) and is compared
+    literally *)
+Definition bound_match (rec : rec_t) (b f : json) (bs : bindings) : res (list bindings) :=
+  match b with
+  | JStr t =>
+      if is_var t then
+        match f with
+        | JStr u => if String.eqb t u then Ok [bs] else Ok []
+        | _ => Ok []
+        end
+      else rec b f bs
+  | _ => rec b f bs
+  end.
+
 (** * match (the recursive matcher) *)
 Fixpoint match_ (fuel : nat) (p f : json) (bs : bindings) {struct fuel}
   : res (list bindings) :=
@@ -350,7 +366,7 @@ Fixpoint match_ (fuel : nat) (p f : json) (bs : bindings) {struct fuel}
               | Using r => Ok r
               | NotUsing =>
                   match lookup s bs with
-                  | Some b => match_ n b f bs
+                  | Some b => bound_match (match_ n) b f bs
                   | None => Ok [bset s f bs]
                   end
               end
